@@ -85,6 +85,15 @@ fn run_wire(s: &wire::WireScn, minimise: bool) -> ScenarioOut {
                 min = x;
             }
         }
+        while min.stale > 0 {
+            let mut x = min.clone();
+            x.stale -= 1;
+            if fails(&x) {
+                min = x;
+            } else {
+                break;
+            }
+        }
         if min.hosts == 3 {
             let mut x = min.clone();
             x.hosts = 2;
